@@ -71,7 +71,32 @@ def consistent(G, im):
     fs = [f for f in oracles.c05(G.is_directed(), d, p, lo, hi) if not classify.d5_unclosed_two_instant_run("C05", {}, f)]
     if fs:
         return "stream out of step with presence: %s" % fs[0]["clause"]
+    # snapshot ids and counts in step with presence (C04), as every later query sees them
+    try:
+        q4 = I.op_q4_obj(G, lo, hi)
+    except Exception as ex:  # noqa
+        return "snapshot queries raise: %s" % type(ex).__name__
+    fs = oracles.c04(G.is_directed(), q4, p, lo, hi)
+    if fs:
+        return "snapshot ids / counts out of step with presence: %s" % fs[0]["clause"]
+    # the in-side of a directed graph must mirror the out-side
+    if G.is_directed():
+        for n in G._node:
+            for m in G._node:
+                if (m in G._pred.get(n, {})) != (n in G._succ.get(m, {})):
+                    return "succ/pred out of step"
     return None
+
+
+def warm_reads(G):
+    """read-only queries issued before the probed call, so that any cache they fill can go stale"""
+    try:
+        list(G.stream_interactions()); G.temporal_snapshots_ids(); G.interactions_per_snapshots()
+        for n in list(G._node)[:2]:
+            G.degree(n); G.neighbors(n); G.get_node_snapshots(n)
+        G.degree(t=0); G.nodes(t=0); list(G.interactions(t=0)); G.number_of_interactions(t=0); G.avg_number_of_nodes()
+    except Exception:  # noqa
+        pass
 
 
 def arg_variants(fn, nodes, fresh):
@@ -179,6 +204,7 @@ def probe(tier, seed):
                         variants = [v + (5,) if name != "add_interaction" else v[:2] + (5,) for v in variants if v is not None]
                 for args in variants:
                     G = copy.deepcopy(G0)
+                    warm_reads(G)
                     before = internal(G)
                     exc = None
                     try:
